@@ -1,6 +1,6 @@
 (* C06 — block-graph edits keep every reference on its target and the header consistent.
    Statements only; proofs are in Graph/*.v. *)
-From NiflyVerif Require Import Res GraphModel GraphInv GraphDelete GraphAdd.
+From NiflyVerif Require Import Res GraphModel GraphInv GraphDelete GraphAdd GraphReplace GraphOrder GraphSteps.
 Local Open Scope N_scope.
 
 (* DeleteBlock on any consistent header and any index in range: the result is consistent again
@@ -46,6 +46,41 @@ Theorem C06_delete_by_type : forall h name oo,
 Proof. exact delete_by_type_full. Qed.
 Print Assumptions C06_delete_by_type.
 
+(* ReplaceBlock: the slot keeps its index; the header stays consistent; every other entry of the
+   abstract graph is unchanged (references to the slot now designate the replacement, which
+   continues the slot's logical identity). *)
+Theorem C06_replace_block : forall h id b',
+  Inv h -> id < vlen (blocks h) -> block_ok (vlen (blocks h)) b' ->
+  (forall b, vget (blocks h) id = Some b -> uid b' = uid b) ->
+  exists h' pre b post,
+    replace_block h id b' = Ok h' /\ Inv h' /\
+    blocks h = pre ++ b :: post /\ vlen pre = id /\
+    blocks h' = pre ++ b' :: post /\ has_sizes h' = has_sizes h /\
+    view h' = map (view_block (blocks h)) pre ++ view_block (blocks h') b' :: map (view_block (blocks h)) post.
+Proof. exact replace_block_spec. Qed.
+Print Assumptions C06_replace_block.
+
+(* SetBlockOrder with a permutation: consistent afterwards and the abstract graph is the same
+   graph with slot i moved to slot order[i] (so every reference designates the same object). *)
+Theorem C06_set_block_order : forall h order,
+  Inv h -> is_perm order (vlen (blocks h)) ->
+  exists h', set_block_order h order = Ok h' /\ Inv h' /\ has_sizes h' = has_sizes h /\
+    vlen (blocks h') = vlen (blocks h) /\
+    (forall i o, vget order i = Some o -> vget (view h') o = vget (view h) i).
+Proof. exact set_block_order_spec. Qed.
+Print Assumptions C06_set_block_order.
+
+(* Any history (no bound on its length) of valid operations from any consistent header — in
+   particular from the empty model — runs without fault and ends in a consistent header. *)
+Theorem C06_history : forall ops h, Inv h -> valid_ops h ops -> exists h', steps h ops = Ok h' /\ Inv h'.
+Proof. exact steps_inv. Qed.
+Print Assumptions C06_history.
+
+Theorem C06_history_from_empty : forall hs ops, valid_ops (empty_hdr hs) ops ->
+  exists h', steps (empty_hdr hs) ops = Ok h' /\ Inv h'.
+Proof. exact history_inv. Qed.
+Print Assumptions C06_history_from_empty.
+
 (* Non-vacuity: a concrete consistent header with references, a deletion in the middle. *)
 Definition ex_h : hdr :=
   fst (add_block (fst (add_block (fst (add_block (empty_hdr true)
@@ -55,6 +90,13 @@ Example C06_example_run :
   match delete_block ex_h 1 with
   | Ok h' => map crefs (blocks h') = [[NPOS; 1]; [NPOS]] /\ map ptrs (blocks h') = [[]; [NPOS]]
              /\ tnames h' = [7; 8] /\ tidx h' = [0; 1]
+  | _ => False
+  end.
+Proof. vm_compute. repeat split; reflexivity. Qed.
+
+Example C06_example_order :
+  match set_block_order ex_h [2; 0; 1] with
+  | Ok h' => map uid (blocks h') = [1; 2; 0] /\ map crefs (blocks h') = [[]; [NPOS]; [0; 1]]
   | _ => False
   end.
 Proof. vm_compute. repeat split; reflexivity. Qed.
